@@ -192,7 +192,7 @@ func runMod1(c *eng.Ctx, m mod1Cfg, idx int) {
 		return
 	}
 	thrCore, thr := math.Exp2(fl[0]+marginBits), math.Exp2(fl[1]+marginBits)
-	c.Max("max_mod1_err_minus_floor_log2_x10", int64(10*(math.Log2(worst+1e-300)-fl[1])))
+	c.Max("max_mod1_err_over_threshold_x1000", int64(1000*worst/thr))
 	c.Check(worstCore <= thrCore, "C18|mod1.Evaluator.EvaluateNew|differs-from-x-mod-1-model|inner-half-of-interval", func() string {
 		return fmt.Sprintf("integer parts |k| <= (K-1)/2: error 2^%.1f > 2^%.1f (floor 2^%.1f + %g bits) (%+v)", math.Log2(worstCore), math.Log2(thrCore), fl[0], marginBits, m)
 	})
